@@ -17,6 +17,106 @@ pub struct Case {
     pub site: Site,
     pub spec: ParamSpec,
     pub date: NaiveDate,
+    /// boundary-directed: if some time of the case lies within 20 minutes of midnight, move the longitude (bisected to
+    /// adjacent f64 values) to where that time crosses 24:00 -> 00:00 and evaluate a fan of +-8 ulps around the crossing
+    #[serde(default)]
+    pub boundary_lon: bool,
+}
+
+impl C05 {
+    fn boundary_directed(&self, c: &Case, st: &mut Stats) -> Result<(), Failure> {
+        let mut plain = c.clone();
+        plain.boundary_lon = false;
+        self.check(&plain, st)?;
+        let times = compute(&c.site, &c.spec, c.date, None);
+        // the entry closest to midnight
+        let mut best: Option<(Prayer, i64)> = None;
+        for p in gen::PRAYERS {
+            if let Some(x) = t(&times, p) {
+                let d = gen::circ_diff(x, 0).abs();
+                if best.map_or(true, |(_, bd)| d < bd) {
+                    best = Some((p, d));
+                }
+            }
+        }
+        let Some((p, d)) = best else { return Ok(()) };
+        if d > 1200 {
+            st.skip("boundary_directed_no_time_within_20min_of_midnight");
+            return Ok(());
+        }
+        // a longitude shift of x degrees moves every time by -240 x seconds
+        let after = |lon: f64| -> Option<bool> {
+            let mut s = c.site;
+            s.lon = F(lon);
+            t(&compute(&s, &c.spec, c.date, None), p).map(|x| x < 43200)
+        };
+        let (mut lo, mut hi) = ((c.site.lon.0 - 5.2).max(-180.0), (c.site.lon.0 + 5.2).min(180.0));
+        let (Some(a), Some(b)) = (after(lo), after(hi)) else {
+            st.skip("boundary_directed_bracket_not_found");
+            return Ok(());
+        };
+        if a == b {
+            st.skip("boundary_directed_bracket_not_found");
+            return Ok(());
+        }
+        for _ in 0..80 {
+            let mid = 0.5 * (lo + hi);
+            if mid == lo || mid == hi {
+                break;
+            }
+            match after(mid) {
+                Some(x) if x == a => lo = mid,
+                Some(_) => hi = mid,
+                None => {
+                    st.skip("boundary_directed_bracket_not_found");
+                    return Ok(());
+                }
+            }
+        }
+        for k in -8i64..=8 {
+            for base in [lo, hi] {
+                let lon = f64::from_bits((base.to_bits() as i64 + k) as u64);
+                if !(-180.0..=180.0).contains(&lon) {
+                    continue;
+                }
+                let mut c2 = plain.clone();
+                c2.site.lon = F(lon);
+                crate::engine::catch(|| self.check(&c2, st))
+                    .map_err(|pn| Failure::new(format!("panic-at-midnight-wrap:{}", pn), "a complete, ordered schedule", format!("{} at longitude {:?}", pn, lon)))?
+                    .map_err(|mut f| {
+                        f.signature = format!("{}:at-midnight-wrap", f.signature);
+                        f.observed = format!("{} [longitude {:?}: {:?} within {} f64 steps of crossing midnight]", f.observed, lon, p, k.abs());
+                        f
+                    })?;
+                // the crossing entry itself must sit at midnight (not an hour or a day away). Only for entries that are a
+                // continuous function of the longitude modulo 24 h: Shurooq/Maghrib (and what is derived from them by an
+                // interval) legitimately switch to the neighbouring day's event at the civil-day seam.
+                let (fi, ii, _) = c.spec.intervals();
+                let continuous = match p {
+                    Prayer::Shurooq | Prayer::Maghrib => false,
+                    Prayer::Isha => ii == 0.0,
+                    Prayer::Fajr | Prayer::Imsaak => fi == 0.0,
+                    _ => true,
+                };
+                if !continuous || flagged(&times, p) == Some(true) {
+                    continue;
+                }
+                let mut s = c.site;
+                s.lon = F(lon);
+                if let Some(x) = t(&compute(&s, &c.spec, c.date, None), p) {
+                    if gen::circ_diff(x, 0).abs() > 61 {
+                        return Err(Failure::new(
+                            "order:time-jumps-at-midnight-wrap",
+                            format!("{:?} within a minute of midnight at the longitude where it crosses midnight", p),
+                            format!("{:?} = {} at longitude {:?}", p, hms(x), lon),
+                        ));
+                    }
+                }
+            }
+        }
+        st.class("boundary_directed_midnight_crossing_done");
+        Ok(())
+    }
 }
 
 impl Prop for C05 {
@@ -47,9 +147,14 @@ impl Prop for C05 {
                 s.policy = policy;
                 s
             });
-        (gen::site(60.0, 6.0), spec, gen::date()).prop_map(|(site, spec, date)| Case { site, spec, date }).boxed()
+        (gen::site(60.0, 6.0), spec, gen::date(), prop_oneof![15 => Just(false), 1 => Just(true)])
+            .prop_map(|(site, spec, date, boundary_lon)| Case { site, spec, date, boundary_lon })
+            .boxed()
     }
     fn check(&self, c: &Case, st: &mut Stats) -> Result<(), Failure> {
+        if c.boundary_lon {
+            return self.boundary_directed(c, st);
+        }
         st.eval();
         prime(&c.site, &c.spec, c.date, None, prime_selector(&c.site, c.date));
         let times = compute(&c.site, &c.spec, c.date, None);
